@@ -35,6 +35,9 @@ def _const(x):
     if isinstance(x, int):
         return z3.RealVal(x)
     if isinstance(x, float):
+        d = getattr(x, "dec", None)
+        if d is not None:
+            return z3.RealVal(d)
         if x != x or x in (math.inf, -math.inf):
             raise ValueError("non-finite constant meets a symbolic value: %r" % x)
         return z3.RealVal(Fraction(x))
